@@ -1360,9 +1360,29 @@ func (env *Env) evalLoc(e Expr) (*Addr, error) {
 	vc := env.vc
 	switch x := e.(type) {
 	case *ESel:
+		// base that is itself a by-value struct location: s.pending.state
+		switch x.X.(type) {
+		case *ESel, *EIndex, *EDeref:
+			if ba, err := env.evalLoc(x.X); err == nil {
+				if sty, ok := structOf(ba.Typ); ok && ba.Kind != aGhost {
+					idx, _ := findField(sty, x.Name)
+					if idx < 0 {
+						return nil, fmt.Errorf("no field %s", x.Name)
+					}
+					if ba.Kind == aLocal {
+						off, _ := vc.E.fieldRange(sty, idx)
+						return &Addr{Kind: aLocal, Typ: sty.Field(idx).Type(), Cell: ba.Cell, Off: ba.Off + off}, nil
+					}
+					return &Addr{Kind: aField, Typ: sty.Field(idx).Type(), Ref: vc.materialize(Val{Addr: ba}), Struct: ba.Typ, Idx: idx}, nil
+				}
+			}
+		}
 		v, err := env.eval(x.X)
 		if err != nil {
 			return nil, err
+		}
+		if v.Typ == nil {
+			return nil, fmt.Errorf("location %s: untyped base", e)
 		}
 		pt, ok := v.Typ.Underlying().(*types.Pointer)
 		if !ok {
